@@ -160,7 +160,9 @@ pub fn slot_owner(flat: &Flat, index: u32) -> Option<&FlatPattern> {
 }
 
 pub fn accepts(p: &FlatPattern, x: u8, y: u8) -> bool {
-    let idx = if p.m.info().two_args {
+    let idx = if p.m == M::Z0 {
+        0
+    } else if p.m.info().two_args {
         arg_index(x, y)
     } else {
         arg_index(x, 0)
